@@ -164,7 +164,7 @@ def listby_obligations(ctx, m):
         else:
             G, rl = res.t, row.t
             keys, rlen, rows = res.arrs
-            ra, = row.arrs
+            ra = row.arrs[0] if row.f.get('arrs') else IA(fresh_name('untyped_empty_row'))     # `row = []`: an empty list without element type yet
         S = start_of(END, G)
         g, h, j, p = Ints('g!inv h!inv j!inv p!inv')
         cl = [('bounds', And(0 <= k, k <= n, G >= 0, 0 <= rl, rl <= k)),
